@@ -69,9 +69,14 @@ def select_batch(m0: int, m1: int, m2: int, m3: int, workers: int, via_agents: b
 STREAMS = ["t1.jsonl", "t2.jsonl", "t4.jsonl", "custom.jsonl"]
 
 
-def _run_driver(limit, nag, nlogs, size_i, workers, masks):
+def _ids(nag, rev):
+    # task order is not the lexicographic agent order when rev is set
+    return (["C", "B", "A"] if rev else ["A", "B", "C"])[:nag]
+
+
+def _run_driver(limit, nag, nlogs, size_i, workers, masks, rev=False):
     """Runs the real batch driver with stub compute/apply and an in-memory sink. Returns (results, sink, state)."""
-    ids = ["A", "B", "C"][:nag]
+    ids = _ids(nag, rev)
     state = {"graphs_by_agent": {a: _gset(m) for a, m in zip(ids, masks)}, "version_etag": "10", "applied": []}
     perf = {"enabled": True, "parallel": {"enabled": True, "agents": True, "max_workers": workers}}
     cfg = {"perf": perf, "t4": {"cache_bust_mode": "none", "snapshot_every_n_turns": 1000}}
@@ -117,24 +122,25 @@ def _per_file(sink):
 @H.ob(model="none", quick=300, thorough=900,
       targets=("clematis/engine/orchestrator/parallel.py:_run_agents_parallel_batch", "clematis/engine/orchestrator/parallel.py:_sort_turn_buffers", "clematis/engine/util/io_logging.py:LogStager.stage"),
       stubs=("compute phase -> stub following the dry-run contract (k log records over 4 streams per agent, one approved delta, an utterance)", "apply_changes -> recording stub (version +1)", "_append_jsonl_unbuffered -> in-memory sink", "enable_staging(limit) with the symbolic byte limit"),
-      bounds="1..3 agents with disjoint graph sets; 0..4 log records per agent; record size class in {tiny, 40 B, 400 B}; staging byte limit: unbounded int >= 1; worker limit 2..4",
-      split={"nag": [1, 2, 3], "size_i": [0, 1, 2]},
+      bounds="1..3 agents with disjoint graph sets, submitted in ascending or descending id order (symbolic flag); 0..4 log records per agent; record size class in {tiny, 40 B, 400 B}; staging byte limit: unbounded int >= 1; worker limit 2..4",
+      split={"nag": [1, 2, 3], "size_i": [0, 1, 2], "rev": [False, True]},
       note="C10.b the batch driver's results, final state and per-file line sequences do not depend on the staging byte limit (from 1 byte upward) and equal the sequential order; no exception escapes")
-def driver_backpressure(limit: int, nag: int, nlogs: int, size_i: int, workers: int) -> bool:
+def driver_backpressure(limit: int, nag: int, nlogs: int, size_i: int, workers: int, rev: bool) -> bool:
     """
     pre: limit >= 1 and 1 <= nag <= 3 and 0 <= nlogs <= 4 and 0 <= size_i <= 2 and 2 <= workers <= 4
     post: _
     """
     masks = [1, 2, 4]
     try:
-        res, sink, state = _run_driver(limit, nag, nlogs, size_i, workers, masks)
+        res, sink, state = _run_driver(limit, nag, nlogs, size_i, workers, masks, rev)
     except Exception:
         return False
-    ref_res, ref_sink, ref_state = _run_driver(10 ** 9, nag, nlogs, size_i, workers, masks)
+    ref_res, ref_sink, ref_state = _run_driver(10 ** 9, nag, nlogs, size_i, workers, masks, rev)
     ok = [r.line for r in res] == [r.line for r in ref_res] and state == ref_state
     ok = ok and _per_file(sink) == _per_file(ref_sink) and len(sink) == len(ref_sink)
     # sequential reference: agents in task order, each: its logs then its apply record
-    ids = ["A", "B", "C"][:min(nag, workers)]
+    ids = _ids(nag, rev)[:min(nag, workers)]
+    ok = ok and [r.line for r in ref_res] == ["utter-" + a for a in ids]
     seq = {}
     ver = 10
     for a in ids:
@@ -149,18 +155,18 @@ def driver_backpressure(limit: int, nag: int, nlogs: int, size_i: int, workers: 
 @H.ob(model="none", quick=200, thorough=400,
       targets=("clematis/engine/orchestrator/parallel.py:_run_agents_parallel_batch", "clematis/engine/orchestrator/parallel.py:_select_independent_batch"),
       stubs=("as driver_backpressure",),
-      bounds="3 agents with symbolic graph-set masks over 3 graphs; worker limit 2..3; byte limit huge",
+      bounds="3 agents (ascending or descending id order by symbolic flag) with symbolic graph-set masks over 3 graphs; worker limit 2..3; byte limit huge",
       split={"m0": [1, 2, 3, 5, 7]},
       note="C10.a/b agents whose graphs overlap an already selected agent are not computed or committed in the batch; the committed ones are exactly the greedy independent prefix, in order")
-def driver_overlap(m0: int, m1: int, m2: int, workers: int) -> bool:
+def driver_overlap(m0: int, m1: int, m2: int, workers: int, rev: bool) -> bool:
     """
     pre: 0 <= m0 < 8 and 0 <= m1 < 8 and 0 <= m2 < 8 and 2 <= workers <= 3
     post: _
     """
     masks = [m0, m1, m2]
-    res, sink, state = _run_driver(10 ** 9, 3, 1, 0, workers, masks)
+    res, sink, state = _run_driver(10 ** 9, 3, 1, 0, workers, masks, rev)
     exp, used = [], set()
-    for a, m in zip(["A", "B", "C"], masks):
+    for a, m in zip(_ids(3, rev), masks):
         if len(exp) >= workers:
             break
         if not (used & set(_gset(m))):
@@ -168,4 +174,38 @@ def driver_overlap(m0: int, m1: int, m2: int, workers: int) -> bool:
             used |= set(_gset(m))
     ok = state["applied"] == [["n:" + a] for a in exp] and [r.line for r in res] == ["utter-" + a for a in exp]
     ok = ok and [p.get("agent") for path, p in sink if path == "apply.jsonl"] == exp
+    return H.verdict(ok)
+
+
+# ----------------------------------------------------------------------------- per-agent context clone
+CLONE_ATTRS = ["now_ms", "seed", "slice_idx"]
+
+
+@H.ob(model="none", quick=120, thorough=300,
+      targets=("clematis/engine/orchestrator/parallel.py:_clone_ctx_for_agent",),
+      bounds="driver context carrying cfg/config/now plus now_ms, seed, slice_idx: each present or absent by symbolic flag, values unbounded symbolic ints (0 and negatives included); agent id by index over 3, turn id symbolic int",
+      note="C10 per-agent context: the clone used for every agent turn (identity path and compute phase) carries exactly the driver context's fields with their values - a field that is set stays set, whatever its value - specialised only in agent and turn id")
+def clone_ctx(now_ms: int, seed: int, slice_idx: int, has_now_ms: bool, has_seed: bool, has_slice: bool, ai: int, turn: int) -> bool:
+    """
+    pre: 0 <= ai <= 2
+    post: _
+    """
+    cfg = {"perf": {"enabled": True}}
+    ctx = NS(cfg=cfg, config=cfg, now="2025-01-10T00:00:00Z")
+    if has_now_ms:
+        ctx.now_ms = now_ms
+    if has_seed:
+        ctx.seed = seed
+    if has_slice:
+        ctx.slice_idx = slice_idx
+    aid = ["A", "B", "C"][ai]
+    c = P._clone_ctx_for_agent(ctx, aid, turn)
+    ok = c.agent_id == aid and c.turn_id == turn and c.cfg is cfg and c.config is cfg and c.now == ctx.now
+    ok = ok and hasattr(c, "now_ms") == has_now_ms and hasattr(c, "seed") == has_seed and hasattr(c, "slice_idx") == has_slice
+    if has_now_ms:
+        ok = ok and c.now_ms == now_ms
+    if has_seed:
+        ok = ok and c.seed == seed
+    if has_slice:
+        ok = ok and c.slice_idx == slice_idx
     return H.verdict(ok)
